@@ -32,13 +32,14 @@ COMPONENTS = {"real": ["every unmarshall_datain", "SCSICommand.unmarshall", "SCS
               "simulated_peers": ["t10.targets Block/Changer/Mmc LUs producing the well-formed base responses"]}
 ASSUMPTIONS = [
     "memory: tracemalloc peak per decode must stay below 16 MiB + 4 KiB per buffer byte (deterministic: allocation sizes are a function of the input)",
-    "'work' = source-line events inside /repo/pyscsi counted by sys.settrace; budget 20000 + 400*len(buffer) is >25x the steepest honest decoder measured (READ ELEMENT STATUS, ~15 steps/byte)",
+    "'work' = source-line events inside /repo/pyscsi counted by sys.settrace; budget 20000 + 400*len(buffer): READ ELEMENT STATUS needs ~15 steps/byte on well-formed data but up to ~100 steps/byte when a corrupted descriptor length of 1 makes it decode one descriptor per byte; 150/byte was tried and false-alarmed on a slower-but-linear rewrite",
     "what a decoder returns for corrupt data is not judged (any value or any exception is fine)",
     "buffers up to 16 KiB (the largest default allocation length)",
 ]
 REQUIRED_PROBES = ["corrupt_datain", "sense_payload", "zero_length_field", "direct_decode", "decoder_raised", "res_page"]
 
 BUDGET_BASE, BUDGET_PER_BYTE = 20000, 400
+GUARD_PER_BYTE = 40      # allocation-traced runs are ~10x slower: they stop at this smaller step count WITHOUT judging termination
 MEM_BASE, MEM_PER_BYTE = 16 << 20, 4096       # generous: honest decoders stay below 2 MiB for 16 KiB buffers
 PREFIX = "/repo/pyscsi/"
 
@@ -189,7 +190,7 @@ def execute(prog):
     def tapped(cmd, *a, **k):
         handed.append(cmd)
         n = len(cmd.datain) if cmd.datain is not None else 0
-        meter.budget = BUDGET_BASE + BUDGET_PER_BYTE * n
+        meter.budget = BUDGET_BASE + (GUARD_PER_BYTE if mem_on else BUDGET_PER_BYTE) * n
         return orig_execute(cmd, *a, **k)
     dev.execute = tapped
     summary = []
@@ -220,13 +221,15 @@ def execute(prog):
             WORLD.arm(fault)
         args, kw = F.real_args(op["args"]), F.real_args(op["kw"])
         fired0 = dict(WORLD.fired)
-        kind, val, n = meter.run(lambda: getattr(scsi, m)(*args, **kw), BUDGET_BASE + BUDGET_PER_BYTE * 16384)
+        kind, val, n = meter.run(lambda: getattr(scsi, m)(*args, **kw), BUDGET_BASE + (GUARD_PER_BYTE if mem_on else BUDGET_PER_BYTE) * 16384)
         mem_check(m, len(handed[0].datain) if handed and handed[0].datain is not None else 16384, where)
         fmode = (fault or {}).get("mode", (fault or {}).get("kind", "none"))
         buflen = len(handed[0].datain) if handed and handed[0].datain is not None else 0
         if m == "readelementstatus" and handed:
             WORLD.probe("res_page")
-        if kind == "budget":
+        if kind == "budget" and mem_on:
+            WORLD.probe("guard_stopped_traced_run")      # not judged here: the untraced runs (90%) judge termination with the full budget
+        elif kind == "budget":
             V.append(dict(oracle="C11.no-termination", where=where, detail=m,
                           expected="%s returns or raises within %d line steps for a %d-byte buffer" % (m, meter.budget, buflen),
                           actual="still running after %d steps at %s" % (n, meter.exceeded_at)))
@@ -249,9 +252,11 @@ def execute(prog):
                 buf = bytearray(final[:cut])
                 WORLD.probe("direct_decode")
                 use = dk if (cut % 2 == 0 or not dk) else {}      # also with the decoder's own default arguments
-                k3, v3, n3 = meter.run(lambda: cls.unmarshall_datain(buf, **use), BUDGET_BASE + BUDGET_PER_BYTE * max(len(buf), len(final)))
+                k3, v3, n3 = meter.run(lambda: cls.unmarshall_datain(buf, **use), BUDGET_BASE + (GUARD_PER_BYTE if mem_on else BUDGET_PER_BYTE) * len(buf))
                 mem_check(cls.__name__, max(len(buf), 1), "direct")
-                if k3 == "budget":
+                if k3 == "budget" and mem_on:
+                    WORLD.probe("guard_stopped_traced_run")
+                elif k3 == "budget":
                     V.append(dict(oracle="C11.no-termination", where="direct", detail=cls.__name__,
                                   expected="%s.unmarshall_datain returns or raises within %d steps for %d bytes" % (cls.__name__, meter.budget, len(buf)),
                                   actual="still running after %d steps" % n3))
@@ -259,6 +264,8 @@ def execute(prog):
                     V.append(dict(oracle="C11.memory", where="direct", detail=cls.__name__, expected="bounded allocation", actual="MemoryError"))
         WORLD.ev("op.end", i=i, out=out, steps=n)
         summary.append("%s:%s:%d" % (m, out, n))
+        if any(v["oracle"] == "C11.no-termination" for v in V):
+            break       # every further non-terminating decode would cost a whole budget again
     out_v, sigs = [], set()
     for v in V:
         k = (v["oracle"], v["where"], v["detail"])
@@ -274,6 +281,27 @@ def execute(prog):
         stats["probe." + k] = v
     return {"digest": WORLD.digest(), "violations": out_v, "nontrivial": bool(WORLD.fired.get("corrupt_datain") or WORLD.fired.get("sense_payload")),
             "stats": stats, "summary": summary, "events_tail": WORLD.events[-4:]}
+
+
+MINIMISE_BUDGET = 60
+MAX_MINIMISED = 4
+ALLOC_KW = {"readdiscinformation": "alloc_len"}
+
+
+def presimplify(prog):
+    """small buffers first: a candidate that still does not terminate costs its whole step budget, which is linear in the buffer"""
+    for size in (64, 256, 1024):
+        c = copy.deepcopy(prog)
+        changed = False
+        for op in c["ops"]:
+            if op["m"] in ("readcapacity10", "readcapacity16", "readcd", "read10"):
+                continue
+            name = ALLOC_KW.get(op["m"], "alloclen")
+            if op["kw"].get(name) != size:
+                op["kw"][name] = size
+                changed = True
+        if changed:
+            yield c
 
 
 def simplify(prog):
